@@ -9,7 +9,7 @@ from ..models import stencil
 
 ID = "C10"
 NEEDS_SHIM = False
-BUDGET = {"quick": 1600, "thorough": 40000}
+BUDGET = {"quick": 1600, "thorough": 120000}
 MIN_EVALS = {"quick": 2500, "thorough": 60000}
 RULE = (
     "seeded random cases: grid of 1-3 axes with random position sets (2-4 cells), a random registry of non-uniform "
@@ -29,7 +29,7 @@ REQUIRED_REACH = ["xgcm.grid.Grid.get_metric", "xgcm.grid.Grid.interp_like", "xg
 
 def gen_case(rng, i, tier):
     nax = rng.randint(1, 3)
-    layout = gen.random_layout(rng, nax=nax, nmin=2, nmax=4, p=0.45, at_least=1)
+    layout = gen.random_layout(rng, nax=nax, nmin=2, nmax=gen.deep(rng, tier, 4, 7), p=0.45, at_least=1)
     axes = layout["axes"]
     axn = [a["name"] for a in axes]
     cm = gen.layout_coords(layout)
